@@ -340,6 +340,27 @@ def deleteCookie (now : Int) (name : Str) (path domain : Str) (secure httponly :
   setCookie now name [] Gen.Cookie.deleteMaxAge (some Gen.Cookie.deleteExpires) path domain secure
     httponly samesite
 
+/-! ### A response's cookie list under a sequence of `set_cookie` / `delete_cookie` calls -/
+
+/-- one call on a response (the attributes not named take their defaults) -/
+inductive COp where
+  | set (name value path : Str)
+  | del (name path : Str)
+
+/-- the record a call appends to `response.cookies` (`none`: the call raises) -/
+def COp.record (now : Int) : COp → Option CookieRec
+  | .set n v p => setCookie now n v (-1) none p [] false false (strCps Gen.Cookie.defaultSamesite)
+  | .del n p => deleteCookie now n p [] false false (strCps Gen.Cookie.defaultSamesite)
+
+/-- `response.cookies` after the calls, `none` when one of them raised: every call appends exactly one
+record, nothing is ever withdrawn or merged -/
+def applyCOps (now : Int) : List COp → Option (List CookieRec)
+  | [] => some []
+  | o :: os =>
+    match o.record now with
+    | none => none
+    | some c => (applyCOps now os).map (c :: ·)
+
 /-! ### Line protocol -/
 
 open Wire in
@@ -369,6 +390,22 @@ def runSetCookie (args : List String) : String :=
 def runDeleteCookie (args : List String) : String :=
   renderLine (deleteCookie (Wire.intArg args 1) (Wire.listArg args 2) (Wire.listArg args 3) (Wire.listArg args 4)
     (boolArg args 5) (boolArg args 6) (Wire.listArg args 7))
+
+def parseCOp (t : String) : Option COp :=
+  match t.splitOn ":" with
+  | ["s", n, v, p] => some (.set (Wire.parseNatList n) (Wire.parseNatList v) (Wire.parseNatList p))
+  | ["d", n, p] => some (.del (Wire.parseNatList n) (Wire.parseNatList p))
+  | _ => none
+
+/-- `ck_seq <tz> <now> <call>…` with `<call>` = `s:<name>:<value>:<path>` | `d:<name>:<path>`: the Set-Cookie
+lines of one response after the calls, in order, separated by `|` -/
+def runSeq (args : List String) : String :=
+  match (args.drop 2).mapM parseCOp with
+  | none => "bad-op"
+  | some ops =>
+    match applyCOps (Wire.intArg args 1) ops with
+    | none => "crash ValueError"
+    | some cs => if cs.isEmpty then "ok -" else "ok " ++ "|".intercalate (cs.map fun c => Wire.renderNatList (line c))
 
 def runQuote (args : List String) : String := Wire.renderNatList (quote (Wire.listArg args 0))
 def runUnquote (args : List String) : String := Wire.renderNatList (unquote (Wire.listArg args 0))
